@@ -73,3 +73,69 @@ def run(unit, em):
                 em.ok(lp, name, 'registered by %s on every path through the body' % unit.text(regs[0], 50), 'all')
             else:
                 em.violation(lp, name, 'the registering call %s can be skipped (it sits under a condition or inside an inner loop that may not run): the states for which that happens are missing from the result' % unit.text(regs[0], 50), 'all')
+
+
+# ---- clause `freshdst`: the destination a renaming fills must not already hold the source's own (un-renamed) content
+def run_freshdst(unit, em):
+    for fn in unit.functions:
+        if fn.body is None:
+            continue
+        vt = None
+        for c in fn.calls():
+            if c['k'] != 'CXXMemberCallExpr' or method_name(c) != 'ReindexStates' or not c.get('inrepo', True) or not c.get('args'):
+                continue
+            a0 = strip(c['args'][0])
+            if a0 is None or a0['k'] != 'DeclRefExpr' or a0.get('dk') != 'local':
+                continue
+            if vt is None:
+                vt = var_table(fn)
+            v = vt.get(a0['d'])
+            if v is None or v['kind'] != 'local':
+                continue
+            decl = v['decl']
+            if unit.ty(decl).rstrip().endswith('&') or 'Aut' not in unit.ty(decl).split('<')[0]:
+                continue
+            init = strip(decl.get('init')) if is_node(decl.get('init')) else None
+            txt = '%s filled by %s' % (decl.get('n'), unit.text(c, 50))
+            if init is None or init['k'] not in ('CXXConstructExpr', 'CXXTemporaryObjectExpr'):
+                continue
+            args = [a for a in init.get('args') or [] if is_node(a)]
+            rty = unit.ty(decl).replace('const ', '').strip()
+            src = strip(args[0]) if args else None
+            is_copy = src is not None and unit.ty(src).replace('const ', '').replace('&', '').strip() == rty
+            if not is_copy:
+                em.ok(c, txt, 'the destination is created empty in this function', 'freshdst')
+                continue
+            # copy of which automaton?  Only a copy of the renaming's own source is an obligation
+            recv = root_path(c.get('obj')) or ('this',)
+            srcp = root_path(src) or ('this',)
+            same = recv[:2] == srcp[:2] or (src['k'] in ('UnaryOperator',) and any(x['k'] == 'CXXThisExpr' for x in walk(src)) and recv[0] == 'this')
+            if not same:
+                em.ok(c, txt, 'the destination starts as a copy of another automaton than the one renamed into it', 'freshdst')
+                continue
+            flags = []
+            for a in args[1:]:
+                if 'bool' not in unit.ty(a):
+                    continue
+                if a['k'] == 'CXXDefaultArgExpr':
+                    flags.append(a.get('dv'))
+                else:
+                    sa = strip(a)
+                    flags.append(sa.get('v') if sa is not None and sa['k'] == 'CXXBoolLiteralExpr' else None)
+            if not flags:
+                em.violation(c, txt, 'the destination is a full copy of the automaton that is renamed into it: its rules and accepting states stay in the result under their old numbers next to their images', 'freshdst')
+            elif any(f is None for f in flags):
+                em.unknown(c, txt, 'the destination is a partial copy of the source controlled by a flag that is not a literal', 'freshdst')
+            elif any(f for f in flags):
+                em.violation(c, txt, 'the destination is created as a copy of the automaton that is renamed into it with a copy flag that is true (%s; a flag left out defaults to true): '
+                             'the copied rules / accepting states keep their old numbers, so the result is the image plus un-renamed leftovers of the input' % ', '.join('true' if f else 'false' for f in flags), 'freshdst')
+            else:
+                em.ok(c, txt, 'the destination copies neither rules nor accepting states of the source', 'freshdst')
+
+
+_run_all = run
+
+
+def run(unit, em):
+    _run_all(unit, em)
+    run_freshdst(unit, em)
